@@ -64,6 +64,11 @@ def cases(tier, seed):
         yield f"api/history/{K}", {"level": "api", "in_memory": True, "npri": None, "K": K, "rand": False, "seed": int(seed) + 11, "nlin": 1, "history": True}
 
 
+def priority(inp):
+    # the API-level cases (real kernel, real files, call histories) first: the function-level enumeration fills the rest of the time budget
+    return 0 if inp.get("level") == "api" else 1
+
+
 def nontrivial(inp):
     if inp["level"] == "api":
         return True
@@ -261,7 +266,8 @@ def _check_api(inp):
     lls_eval = [float(lls_all[i]) for i in order]
     if not np.allclose(all_ll, lls_eval, rtol=0, atol=1e-9):
         bad("all-logprobs-evaluation-order", got=all_ll, want=lls_eval)
-        return fails
+        # (no early return: whether the returned ROWS are the accepted ones is a separate clause, judged against the true likelihoods below)
+        all_ll = np.array(lls_eval)
     uu = [float(x) for x in ev[0][2]]
     good = _expected([float(x) for x in all_ll], uu, inp["K"])
     want_rows = [order[k] for k in good]
